@@ -94,11 +94,21 @@ def observe_argsort(case):
     out['input_untouched'] = len(inp) == len(tids) and all(a is b for a, b in zip(inp, tids))
     # further calls on the SAME sorter instance: same id set with other multiplicities, other sequences
     out['followups'] = []
-    for seq in case.get('followups', []):
+    # in half of the cases every follow-up passes ONE list object that is edited in place between the calls
+    # (a caller re-sorting its own growing / shrinking list), in the other half a fresh list per call
+    inplace = len(case['ids']) % 2 == 0
+    buf = []
+    for n, seq in enumerate(case.get('followups', [])):
         PROXY.log = []
         rec = {}
+        new = [TermId.from_curie(x) for x in seq]
+        if inplace:
+            buf[:] = new
+            arg = buf
+        else:
+            arg = new
         try:
-            rec['ok'] = [int(i) for i in sorter.argsort([TermId.from_curie(x) for x in seq])]
+            rec['ok'] = [int(i) for i in sorter.argsort(arg)]
         except Exception as e:
             rec['err'] = exn_name(e)
         rec['decisions'] = decisions(sorter)
